@@ -91,6 +91,13 @@ func c18Commands(u c18Unit) (cmds [][]string, keys [][]string, txn bool) {
 	case "txnflt":
 		// second command is removed by the key filter; what remains is single-slot
 		return [][]string{{"MULTI"}, {"SET", k[0], "a"}, {"SET", fltPrefix + k[1], "b"}, {"EXEC"}}, [][]string{nil, {k[0]}, nil, nil}, true
+	case "delflt":
+		// the key filter removes the second key; the command is forwarded restricted to the first
+		return [][]string{{"DEL", k[0], fltPrefix + k[1]}}, [][]string{{k[0]}}, false
+	case "msetflt":
+		return [][]string{{"MSET", k[0], "a", fltPrefix + k[1], "b"}}, [][]string{{k[0]}}, false
+	case "txndelflt":
+		return [][]string{{"MULTI"}, {"SET", k[0], "a"}, {"UNLINK", fltPrefix + k[1], k[0]}, {"EXEC"}}, [][]string{nil, {k[0]}, {k[0]}, nil}, true
 	}
 	panic("unknown c18 kind " + u.Kind)
 }
@@ -343,7 +350,7 @@ func runC18(t *testing.T, rep *mc.Reporter) {
 	for _, k := range pool {
 		units = append(units, c18Unit{"set", []string{k}}, c18Unit{"foo", []string{k}})
 	}
-	for _, kind := range []string{"del", "mset", "rename", "smove", "bitop", "eval", "evalA", "evalB", "txn", "txndel", "txnflt"} {
+	for _, kind := range []string{"del", "mset", "rename", "smove", "bitop", "eval", "evalA", "evalB", "txn", "txndel", "txnflt", "delflt", "msetflt", "txndelflt"} {
 		for _, a := range pool {
 			for _, b := range pool {
 				units = append(units, c18Unit{kind, []string{a, b}})
@@ -357,7 +364,7 @@ func runC18(t *testing.T, rep *mc.Reporter) {
 			if idx%nshards != shard || budget.Expired() {
 				continue
 			}
-			scn := c18Scenario{Unit: u, Cfg: m, Filter: u.Kind == "txnflt"}
+			scn := c18Scenario{Unit: u, Cfg: m, Filter: strings.HasSuffix(u.Kind, "flt")}
 			rep.Scenario()
 			res := c18Exec(t, scn)
 			if res.Verdict == "violation" {
